@@ -122,6 +122,19 @@ fn reference<B: Backend + Default>(plan: &Value, literals: &[String], paths: &[P
     }
 }
 
+/// the text's shape with respect to a line-buffered stream whose buffer holds STDOUT_BUF bytes (std: 1024)
+const STDOUT_BUF: usize = 1024;
+fn shape_of(text: &str) -> &'static str {
+    let rest = text.len() - text.rfind('\n').map(|i| i + 1).unwrap_or(0);
+    match (text.contains('\n'), rest) {
+        (true, 0) => "ends_in_newline",
+        (true, r) if r < STDOUT_BUF => "newline_and_small_rest",
+        (true, _) => "newline_and_large_rest",
+        (false, r) if r < STDOUT_BUF => "small_no_newline",
+        (false, _) => "large_no_newline",
+    }
+}
+
 struct Ctx {
     dir: String,
     cli: String,
@@ -257,6 +270,20 @@ fn scenario(ctx: &Ctx, ci: usize, plan: &Value, si: usize, table: &Table) -> Val
         }
     }
     cmd.current_dir(&out).stdin(Stdio::null()).stdout(Stdio::piped()).stderr(Stdio::piped());
+    // a standard output that takes nothing: a full device, or a stream whose reader is gone before the call starts
+    match dest {
+        "stdout_full" => match fs::OpenOptions::new().write(true).open("/dev/full") {
+            Ok(f) => { cmd.stdout(Stdio::from(f)); }
+            Err(e) => return json!({"ev": "deliver", "case": ci, "set": si, "api": api, "backend": backend, "srcform": form, "mode": mode, "dest": dest, "input": input,
+                                    "compiled": "unstaged", "result": "unstaged", "detail": format!("/dev/full: {e}")}),
+        },
+        "stdout_epipe" => {
+            let (ours, theirs) = std::os::unix::net::UnixStream::pair().expect("socket pair");
+            drop(ours);
+            cmd.stdout(Stdio::from(std::os::fd::OwnedFd::from(theirs)));
+        }
+        _ => (),
+    }
     for k in ["CARGO_HOME", "CARGO", "RUSTFMT"] {
         cmd.env_remove(k);
     }
@@ -312,6 +339,7 @@ fn scenario(ctx: &Ctx, ci: usize, plan: &Value, si: usize, table: &Table) -> Val
                     "warnings_same": warnings.map(|w| w == refo.warnings).unwrap_or(true), "detail": detail,
                     "delivers": hook_facts["delivers"], "deliver_last": hook_facts["deliver_last"], "hooks": hook_facts["hooks"],
                     "text_bytes": refo.generated.len(), "old_bytes": old.len(), "modules": nmods,
+                    "shape": shape_of(&refo.generated),
                     "asn": literals.join("\n").chars().take(400).collect::<String>()});
     let _ = fs::remove_dir_all(&s);
     ev
@@ -329,13 +357,25 @@ pub fn drive(args: &[String]) -> i32 {
     let tables: Vec<Table> = sets.iter().map(Table::from_json).filter(|t| !t.defs().is_empty()).collect();
     let ctx = Ctx { dir, cli: util::arg(args, "--cli").expect("--cli").to_string(), me: std::env::current_exe().unwrap().to_string_lossy().to_string(),
                     drop_root: fs::metadata("/proc/self").map(|m| std::os::unix::fs::MetadataExt::uid(&m) == 0).unwrap_or(false) };
-    let jobs: Vec<(usize, usize)> = (0..plans.len()).flat_map(|ci| (0..per_plan).map(move |k| (ci, k))).collect();
+    // standard output is line buffered (Delivery.tla): texts whose unterminated rest stays below the stream's buffer behave
+    // differently from the generated sets' texts, so every standard-output plan also runs on two tiny modules
+    let mut tables = tables;
+    let ngen = tables.len();
+    for kind in ["BOOLEAN", "NULL"] {
+        tables.push(Table::from_json(&json!({"mods": [{"tagdef": "AUTOMATIC", "implied": false}], "nodes": [
+            {"k": kind, "p": 0, "m": 1, "role": "def", "opt": "req", "kw": "none", "add": false, "ref": 0, "qual": false, "c": 0, "tagall": false,
+             "marker": false, "vk": "", "fault": "none", "ft": 0}]})));
+    }
+    let mut jobs: Vec<(usize, usize)> = (0..plans.len()).flat_map(|ci| (0..per_plan).map(move |k| (ci, (ci * 3 + k * 7) % ngen))).collect();
+    for (ci, p) in plans.iter().enumerate() {
+        if p["mode"] == "stdout" {
+            jobs.push((ci, ngen));
+            jobs.push((ci, ngen + 1));
+        }
+    }
     let events = util::par_chunks(&jobs, 8, util::threads(), |_, chunk| {
         run::install_panic_hook();
-        chunk.iter().map(|(ci, k)| {
-            let si = (ci * 3 + k * 7) % tables.len();
-            scenario(&ctx, *ci, &plans[*ci], si, &tables[si])
-        }).collect()
+        chunk.iter().map(|(ci, si)| scenario(&ctx, *ci, &plans[*ci], *si, &tables[*si])).collect()
     });
     util::write_ndjson(util::arg(args, "--trace").expect("--trace"), &events);
     eprintln!("c20: {} plans x {per_plan} module sets, {} events, children run as {}", plans.len(), events.len(), if ctx.drop_root { "uid 65534" } else { "the caller" });
